@@ -495,7 +495,7 @@ fn k_sweep(rng: &mut Rng, rec: &mut Recorder, size: usize, k: usize) {
 pub fn run(args: &Args, rec: &mut Recorder) {
     rec.rule = "evaluation = one step of a history over {push new element, merge another module, sort_new_items, write}; after every sort_new_items / write the order of the /begin lines of the written file is compared with an order model (placed elements keep their relative order; new elements of a kind form one run directly after the last placed element of their kind, or come after all placed elements if there is none); every step runs under the panic monitor with overflow checks. distinct_nontrivial = distinct histories by hash of the operation sequence".into();
     rec.assumptions.push("merged modules use disjoint names (no renames); singletons brought by a merge that the library places at the head of the module (A2ML, MOD_COMMON, MOD_PAR) and module-level IF_DATA are excluded from the order comparison; USER_RIGHTS are judged by their user level id; a VARIANT_CODING brought by a merge is judged like any new element without a placed element of its kind (at the end); the order inside a run of new elements is not constrained".into());
-    let n_hist: u64 = if args.thorough { 40_000 } else { 1_500 };
+    let n_hist: u64 = if args.thorough { 40_000 } else { 5_000 };
     let max_len = if args.thorough { 400 } else { 100 };
     let n_sweeps = 9u64;
     run_cases(args, rec, n_sweeps + n_hist, crate::util::reset_budget, |rng, case, rec| {
